@@ -45,6 +45,7 @@ RULE = ('Each case = one generated dataset directory (configuration vector over 
 RULE += ' Added classes: Fortran-ordered .npy files; loads performed from a working directory that holds a same-named decoy raw file; one dataset with > 2**20 spikes whose only time inversion sits on the 2**20 block seam (must be rejected).'
 RULE += ' Round 5: vectors stored as (1, n) rows; views (channel subset, scaled copy, reversed channels) derived from model.traces before it is read.'
 RULE += ' Round 6: templates whose first sample only is NaN; attribute files named spike_times_ms.npy / spike_clusters_ks.npy; a Kilosort-2 templates_ind.npy next to dense templates.'
+RULE += ' Round 7: a parameter file in another folder naming the data folder (dir_path) with decoy raw files beside it; files created by loading must be files of their own (no hard links).'
 EXHAUSTIVE = {'quick': False, 'thorough': False}
 FLOORS = {'quick': {'evaluations': 1500, 'distinct_nontrivial': 800, 'monitors': {'M1.checked': 2000}},
           'thorough': {'evaluations': 20000, 'distinct_nontrivial': 5000, 'monitors': {'M1.checked': 5000}}}
